@@ -343,8 +343,8 @@ class U8OpsCase:
         it = self.itok
         if name in ("em", "ct", "rw", "cl", "st"):
             self.add(name, "return U.%s();" % {"em": "empty", "ct": "count", "rw": "rawsize", "cl": "clear", "st": "string"}[name])
-        elif name in ("tu", "tl"):
-            self.add(name, "return U.%s().count();" % {"tu": "toupper", "tl": "tolower"}[name])
+        elif name in ("tu", "tl", "tc", "tn", "tt"):
+            self.add(name, "return U.%s().count();" % {"tu": "toupper", "tl": "tolower", "tc": "capitalize", "tn": "normalize", "tt": "translit"}[name])
         elif name == "rv":
             self.add("rv:%s" % it(a[0]), "return U.reserve(%s);" % self.ivar(a[0]))
         elif name == "ap":
@@ -387,7 +387,8 @@ class U8OpsCase:
         return 3 + len(self.sets) + 2
 
 
-_CM_ENTRY = re.compile(r"\{\s*0x([0-9a-fA-F]+)\s*,\s*0x([0-9a-fA-F]+)\s*,\s*0x([0-9a-fA-F]+)\s*,")
+_CM_ENTRY = re.compile(r'\{\s*0x([0-9a-fA-F]+)\s*,\s*0x([0-9a-fA-F]+)\s*,\s*0x([0-9a-fA-F]+)\s*,\s*([A-Za-z| ]+?)\s*,\s*"((?:[^"\\]|\\.)*)"')
+_CM_CAT = {"None": 0, "IsSpace": 1, "IsBreaker": 2, "IsControl": 4, "IsModifier": 8, "IsDiacritic": 16, "IsPunctuation": 32}
 
 
 def read_charmap():
@@ -397,8 +398,12 @@ def read_charmap():
         src = f.read()
     tab = {}
     for m in _CM_ENTRY.finditer(src):
-        code, up, lo = (int(x, 16) for x in m.groups())
-        tab[code] = (up, lo)
+        code, up, lo = (int(x, 16) for x in m.groups()[:3])
+        cat = 0
+        for w in m.group(4).split("|"):
+            cat |= _CM_CAT[w.strip()]          # (an unknown flag name is a KeyError: the table's vocabulary changed)
+        tr = m.group(5).encode("latin-1").decode("unicode_escape").encode("latin-1")          # the C string literal: \\xNN, \\", plain characters
+        tab[code] = (up, lo, cat, int.from_bytes(tr, "big"))
     return tab
 
 
@@ -432,7 +437,7 @@ class U8CaseCase(U8OpsCase):
         """the WHOLE table (2560 entries, ~40 KB): a character can be completed across two append(string) calls, so the set of
         sequences a history touches is not a function of its texts taken one by one"""
         if not hasattr(U8CaseCase, "_table"):
-            U8CaseCase._table = ",".join("%x:%x:%x" % (c, u, l) for c, (u, l) in sorted(self.charmap.items())) or "-"
+            U8CaseCase._table = ",".join("%x:%x:%x:%x:%x" % ((c,) + e) for c, e in sorted(self.charmap.items())) or "-"
         return U8CaseCase._table
 
     def model_line(self):
@@ -1142,7 +1147,8 @@ class Half:
     # ---------------------------------------------------------------- sqlite
     def sql_values(self):
         r = self.rng
-        vals = ["I:%d" % n for n in (0, 1, -1, 5, 255, 256, 2 ** 31 - 1, 2 ** 31, -2 ** 31 - 1, 2 ** 53, 2 ** 53 + 1, I64MAX, I64MIN, I64MIN + 1)]
+        vals = ["I:%d" % n for n in (0, 1, -1, 5, 255, 256, 2 ** 31 - 1, 2 ** 31, -2 ** 31, -2 ** 31 - 1, 2 ** 32 - 1, 2 ** 32, 2 ** 32 + 2,
+                                       -2 ** 32, 2 ** 53 - 1, 2 ** 53, 2 ** 53 + 1, -2 ** 53 - 1, I64MAX, I64MAX - 1, I64MIN, I64MIN + 1)]
         dbits = [0, 0x8000000000000000, 0x3ff0000000000000, 0x3ff8000000000000, 0xbff8000000000000, 0x4000000000000000, 0x43e0000000000000,
                  0x0000000000000001, 0x000fffffffffffff, 0x0010000000000000, 0x7fefffffffffffff, 0x7ff0000000000000, 0xfff0000000000000,
                  0x7ff8000000000000, 0x7ff0000000000001, 0xfff8000000000000, 0xffffffffffffffff, 0x3fb999999999999a, 0x400921fb54442d18, 0x4340000000000001]
@@ -1467,7 +1473,9 @@ class Half:
         r = self.rng
         cm = read_charmap()
         self.chk.stats["c18f_charmap_entries"] = len(cm)
-        self.chk.stats["c18f_charmap_zero_images"] = sum(1 for c, (u, l) in cm.items() if c != 0 and (u == 0 or l == 0))
+        self.chk.stats["c18f_charmap_zero_images"] = sum(1 for c, e in cm.items() if c != 0 and (e[0] == 0 or e[1] == 0))
+        self.chk.stats["c18f_charmap_translit"] = {"empty": sum(1 for e in cm.values() if e[3] == 0), "several_bytes": sum(1 for e in cm.values() if e[3] > 0xff)}
+        self.chk.stats["c18f_charmap_categories"] = {str(k): sum(1 for e in cm.values() if e[2] == k) for k in sorted({e[2] for e in cm.values()})}
         texts = ["Hello, World 123 ~", "\u00e0\u00e9\u00ee\u00f5\u00fc\u00ff \u00c0\u00c9\u00ce\u00d5\u00dc \u00df\u00b5", "\u03b1\u03b2\u03b3 \u0391\u0392\u0393 \u03c2\u03c3",
                  "\u043f\u0440\u0438\u0432\u0435\u0442 \u041f\u0420\u0418\u0412\u0415\u0422 \u0451\u0401", "\u0140\u0142\u0144\u0148 \u0141\u0143 \u0131\u0130 \u017f", "\u1e01\u1e02 \u1e9e \u1f00\u1f08 \u10d0\u10a0",
                  "\u24d0\u24b6 \u2170\u2160 \u2c30\u2c00 \u2d00", "\U000104d8\U000104b0 \U00010428\U00010400 \U0001e922\U0001e900", "\u20ac \u6f22\u5b57 \U0001f600 \u0250\u0561\u0531", ""]
@@ -1486,15 +1494,34 @@ class Half:
                 else:
                     pc.op("al", t2); pc.op("tl"); pc.op("al", t3); pc.op("al", b"\xc3"); pc.op("al", b"\x89Q"); pc.op("tu"); pc.op("ap", 0x51); pc.op("tl")
                 out.append(pc)
+            # capitalize / normalize: the transformations that read the category of the previous character
+            sp = "  hello   wORLD\t\tfoo\nbar \u00e9t\u00c9 \u00a0\u2003x\u20acy \u0431\u0411 ".encode()
+            for h in range(2):
+                pc = U8CaseCase(t + b" " + sp[:30] if h == 0 else sp + t[:60], cm)
+                if h == 0:
+                    pc.op("tc"); pc.op("tn"); pc.op("tc"); pc.op("al", sp); pc.op("tn"); pc.op("cl"); pc.op("tc")
+                else:
+                    pc.op("tn"); pc.op("al", b"  A  b "); pc.op("tc"); pc.op("tu"); pc.op("tc"); pc.op("al", t2); pc.op("tn"); pc.op("tn")
+                out.append(pc)
+            # translit: a replacement of several letters is ONE stored element; later transformations re-read its bytes
+            pc = U8CaseCase(t, cm)
+            pc.op("tt"); pc.op("tu"); pc.op("tt"); pc.op("al", t2); pc.op("tt"); pc.op("tc"); pc.op("cl"); pc.op("al", t3); pc.op("tt"); pc.op("tl")
+            out.append(pc)
         pool = [x for x in texts if len(x) < 80]
         for _ in range(self.sz.get("rand_u8case", 60)):
             pc = U8CaseCase(r.choice(pool), cm)
             for _ in range(r.randint(3, 9)):
                 k = r.random()
-                if k < 0.25:
+                if k < 0.15:
                     pc.op("tu")
-                elif k < 0.5:
+                elif k < 0.3:
                     pc.op("tl")
+                elif k < 0.38:
+                    pc.op("tc")
+                elif k < 0.45:
+                    pc.op("tn")
+                elif k < 0.5:
+                    pc.op("tt")
                 elif k < 0.8:
                     pc.op("al", r.choice(pool)[:r.choice([1, 2, 3, 7, 20])])
                 elif k < 0.9:
@@ -1993,7 +2020,7 @@ RULE = ("file: every history below is run on the real module (ASan+UBSan build, 
         "negative / INT64 extreme arguments of every method, calls on a closed or default-constructed object; readln on data with NUL, "
         "CR, LF and 4095/4096/4097-character lines; dirname/basename on all strings of length <= 4 over {/ a .}; random histories of 4-14 "
         "calls; read counts no allocator can serve (2^40, 2^47, 2^62-1, 2^62, INT64_MAX: the data that is there comes back) on files of "
-        "0 / 3 / 4096 / 10000 bytes; writes of empty strings and of empty bytes values without buffer. sqlite3: every value class (boundary integers, decimal bit "
+        "0 / 3 / 4096 / 10000 bytes; writes of empty strings and of empty bytes values without buffer. sqlite3: every value class (boundary integers: 0, +-1, 255, 256, 2^31-1, +-2^31, -2^31-1, 2^32-1, +-2^32, 2^32+2, 2^53-1, 2^53, +-(2^53+1), INT64 extremes and their neighbours; decimal bit "
         "patterns incl. -0, subnormals, infinities, NaNs; strings empty / UTF-8 / invalid UTF-8 / with NUL / 5000 bytes; bytes empty / "
         "with NUL / all 256 values / 10000 bytes; booleans; typed nulls; an object) through exec(sql, tuple), prepare+bind+execute and "
         "query(sql, tuple), read back through query() and prepare+execute+fetch+header, and by Python's sqlite3 (value and typeof) on the "
@@ -2007,12 +2034,12 @@ RULE = ("file: every history below is run on the real module (ASan+UBSan build, 
         "sequences that a later append(string) completes, 300 characters) x 3 second objects: a fixed history of 43 calls with the "
         "receiver itself / another object / a typed null object as utf8 argument, insert of the object into ITSELF at every position "
         "class (39 histories), 150 random histories of 3-12 calls (positions / counts / code points incl. -1, INT64 extremes, 2^32+x, "
-        "null), state read back after every call (count, rawsize, string); toupper / tolower (TransformUpper / TransformLower through the REAL character "
+        "null), state read back after every call (count, rawsize, string); toupper / tolower / capitalize / normalize / translit (all five table-driven transformations through the REAL character "
         "table: utf8helper_charmap.cpp is read by the check, 2560 entries, and the driver is handed the whole table with every history), "
         "append(string) on an object with a transformation still installed, append(integer), clear: 14 texts (ASCII, Latin-1, Greek, "
         "Cyrillic, Latin Extended, the E1 / E2 pages, the two 4-byte pages, characters without a page, ill-formed bytes, NUL, 340 "
-        "characters) x 3 fixed histories + 60 random histories, state read back after every call (family u8.plugin_case; the sticky "
-        "transformation is the recorded finding C18.utf8_transform_sticky); reserve() with -1, -2, INT64_MIN (negative), 2^61, 2^61+1, 2^62, "
+        "characters) x 6 fixed histories (two with capitalize / normalize, one with translit, on texts with runs of blanks, TAB, LF, NBSP, EM SPACE) + 60 random histories, state read back after every call (family u8.plugin_case: the former "
+        "region of the repaired finding C18.utf8_transform_sticky: append(string) after a transformation and after clear()); reserve() with -1, -2, INT64_MIN (negative), 2^61, 2^61+1, 2^62, "
         "INT64_MAX (above vector::max_size(): std::length_error caught), 2^40, 2^50, 2^61-2, 2^61-1 (above what the allocator serves: "
         "std::bad_alloc caught; supplied by harness/newlimit.cpp, an operator new that throws above 2^34 bytes, because the sanitizer's "
         "operator new aborts instead of throwing), 0, 10^6 on 3 objects, the exact error class EXC_RT_OUT_OF_RANGE compared and the "
@@ -2060,8 +2087,8 @@ class C18F(Check):
     assumptions = ["one handle per file at a time (stdio buffering unobservable); regular files in an existing writable directory; "
                    "SQL text fixed to CREATE TABLE t(a) | t(a NOT NULL) / INSERT INTO t VALUES(?) / SELECT a, typeof(a) FROM t / SELECT ?1, typeof(?1); "
                    "fopen modes with the glibc mmap flag `m` or a comma are outside the model (nothing compared after such an open); "
-                   "utf8: normalize / capitalize / translit are not modelled (toupper / tolower are, with the character table as a parameter of the model "
-                   "and the real table handed to the driver by the check); reserve() requests are <= 10^6 or >= 2^40 elements, "
+                   "utf8: all five transformations are modelled, with the character table as a parameter of the model "
+                   "and the real table handed to the driver by the check; reserve() requests are <= 10^6 or >= 2^40 elements, "
                    "and the allocator's refusal (std::bad_alloc above 2^34 bytes) is supplied by harness/newlimit.cpp in the u8.plugin_reserve family"]
 
     def __init__(self, tier, seed):
